@@ -84,14 +84,16 @@ def plain_ident(draw, min_len=1, max_len=9):
     return safe_word(w)
 
 
-STYLES = ("plain", "plain", "plain", "dq", "dqsp", "bt", "br")
+STYLES = ("plain", "plain", "plain", "dq", "dqsp", "dqdot", "bt", "br")
 
 
 def quote(word, style):
     if style == "dq":
         return '"%s"' % word
-    if style == "dqsp":
-        return '"%s %s"' % (word[: max(1, len(word) // 2)], word[max(1, len(word) // 2):] or "x")
+    if style == "dqsp":  # one blank, or two for every third word length
+        return '"%s%s%s"' % (word[: max(1, len(word) // 2)], "  " if len(word) % 3 == 0 else " ", word[max(1, len(word) // 2):] or "x")
+    if style == "dqdot":  # a dot inside double quotes belongs to the name, it does not qualify it
+        return '"%s.%s"' % (word[: max(1, len(word) // 2)], word[max(1, len(word) // 2):] or "x")
     if style == "bt":
         return "`%s`" % word
     if style == "br":
@@ -176,6 +178,12 @@ def safe_literal(draw, max_size=12):
         body = body[:pos] + "''" + body[pos:]
     if draw(st.integers(0, 9)) == 0:
         body = draw(st.sampled_from(["NOT NULL", "primary key", "create table", "DEFAULT", "--", "-- x", "#", "a;b -- c #d"]))
+    if draw(st.integers(0, 7)) == 0:
+        # a run of blanks inside the literal (padding of CHAR defaults, aligned texts) is part of the value
+        pos = draw(st.integers(0, len(body)))
+        while 0 < pos < len(body) and body[pos - 1] == "'" and body[pos] == "'":
+            pos += 1  # never between the two halves of an escaped quote
+        body = body[:pos] + " " * draw(st.integers(2, 4)) + body[pos:]
     return "'" + body + "'"
 
 
